@@ -227,7 +227,7 @@ def c04_dispatch(report, cfg):
         engine_guard(go, report, "R4.5", ikey)
 
 
-def c04_update(report, cfg):
+def c04_update(report, cfg, rule="R17.1"):
     """R17.1 / R8.3 for BLAKE: update processes the complete blocks of (buffer ++ data), advancing the
     double-word bit counter by 8*blocksize with carry before each block."""
     f = facts.load(cfg)
@@ -260,7 +260,7 @@ def c04_update(report, cfg):
                     scell = it.new_cell(v, "hasher")
                     dbits, dcell = bytes_cell(it, "data", ln)
                     it.call_instance(upd, [Ptr(scell, ()), Ptr(dcell, (), idx=0, meta=ln, ety="u8")])
-                    if filter_asserts(it, report, "R17.1", ikey):
+                    if filter_asserts(it, report, rule, ikey):
                         return
                     stream = old[:8 * p] + dbits
                     nfull = (p + ln) // bb
@@ -276,12 +276,12 @@ def c04_update(report, cfg):
                     buf2, _, _ = by_name(it, v2, t, "buffer")
                     pos2, _, _ = by_name(it, buf2, bt, "pos")
                     if tt.f[0] != e0 or tt.f[1] != e1:
-                        report.violated("R17.1", ikey, "%s::update: the bit counter after %d block(s) is not the double-word sum t + 8*%d*blocks with carry into the high word" % (name, nfull, bb))
+                        report.violated(rule, ikey, "%s::update: the bit counter after %d block(s) is not the double-word sum t + 8*%d*blocks with carry into the high word" % (name, nfull, bb))
                     elif it.to_bits(comp2, ctype) != bv.concat(h):
-                        report.violated("R17.1", ikey, "%s::update: blocks or per-block counters fed to the compression function differ from the stream's complete blocks" % name)
+                        report.violated(rule, ikey, "%s::update: blocks or per-block counters fed to the compression function differ from the stream's complete blocks" % name)
                     elif bv.const_value(pos2) != (p + ln) - nfull * bb:
-                        report.violated("R17.1", ikey, "%s::update: wrong number of buffered bytes" % name)
+                        report.violated(rule, ikey, "%s::update: wrong number of buffered bytes" % name)
                     else:
-                        report.ok("R17.1", ikey, sample={"hasher": name, "pos": p, "len": ln} if (p, ln) == (1, 2 * bb + 3) else None)
-                engine_guard(go, report, "R17.1", ikey)
+                        report.ok(rule, ikey, sample={"hasher": name, "pos": p, "len": ln} if (p, ln) == (1, 2 * bb + 3) else None)
+                engine_guard(go, report, rule, ikey)
     return total
